@@ -1394,7 +1394,14 @@ impl RepoSim {
             };
             sim.note("note:cmd_error", format!("{what}: {msg}"));
             if !ioerr_here {
-                let (prop, inv) = if msg.contains("index") || msg.contains("Index") {
+                // Known finding (known_findings.jsonl): a reconcile of criss-crossed
+                // operations rebases a commit twice within one tick of the
+                // process's commit clock (first in the unpublished merge of the
+                // common ancestors, whose index is merged into the real merge) and
+                // the second write is refused as "already exists".
+                let (prop, inv) = if msg.contains("Newly-created commit") && msg.contains("already exists") {
+                    ("C14", "reconcile_rewrites_commit_twice_in_one_clock_tick")
+                } else if msg.contains("index") || msg.contains("Index") {
                     ("C18", "unexpected_index_error")
                 } else if msg.contains("commit") && msg.contains("not found") {
                     ("C17", "unexpected_backend_error")
@@ -2787,11 +2794,17 @@ impl RepoSim {
                     }
                 }
                 Err(e) => {
+                    let msg = err_chain(&e);
+                    let (inv, key) = if msg.contains("Newly-created commit") && msg.contains("already exists") {
+                        ("reconcile_rewrites_commit_twice_in_one_clock_tick", "reposim:reconcile_rewrites_commit_twice_in_one_clock_tick:load")
+                    } else {
+                        ("quiescent_load_failed", "reposim:c14:quiescent_load_failed")
+                    };
                     shared.model.lock().unwrap().violate(
                         "C14",
-                        "quiescent_load_failed",
-                        "reposim:c14:quiescent_load_failed".into(),
-                        format!("load_at_head by a fresh process after all activity stopped failed: {}", err_chain(&e)),
+                        inv,
+                        key.into(),
+                        format!("load_at_head by a fresh process after all activity stopped failed: {msg}"),
                         0,
                     );
                     return;
